@@ -100,6 +100,8 @@ func (it *Generator) Send(arg Object) (Object, error) {
 	res, err := VmRunFrame(it.Frame)
 	it.Running = false
 	if err != nil {
+		// a generator which raised is finished
+		it.Frame.Yielded = false
 		return nil, err
 	}
 	if it.Frame.Yielded {
